@@ -22,6 +22,7 @@ json.dump({'property':pid,'breaks':pid,'round':{'b':2,'c':3,'d':4,'e':5,'f':6}.g
            'ran':'harness/seedrun.sh /verif/seeded/%s%s/patch.diff %s'%(pid,suf,pid),'detection':'TBD'},open('/verif/seeded/%s%s/meta.json'%(pid,suf),'w'),indent=1)
 PY
   git -C /repo worktree remove --force $base/$id/repo 2>/dev/null
+  if [ -n "$NO_RUN" ]; then echo "$id$suf: confirmed and stored"; continue; fi
   out=$(sh /verif/harness/seedrun.sh $d/patch.diff $id 2>&1)
   echo "$id$suf: confirmed; $(echo "$out" | grep -E 'rc=' | head -1) violations=$(echo "$out" | grep -c '^VIOLATION') nf=$(echo "$out" | grep -c no-failing)"
 done
